@@ -118,6 +118,15 @@ Theorem barrier_bounded_work : forall n progs s sc,
   wf_prog n progs = true -> R n progs s -> sched_ok no_spurious sc -> (moves glob loc tstep s sc <= mu s)%nat.
 Proof. exact bounded_work. Qed.
 
+(* The bump of generation_, the re-arm of count_ and the notify_all of the last arriver form one
+   critical section: the step that emits notify_all is taken by the owner of the mutex, which still
+   owns it afterwards (monitor barrier.rearm_outside_lock checks the same discipline on the code). *)
+Theorem barrier_notify_under_mutex : forall n progs s t c l g' l' es,
+  wf_prog n progs = true -> R n progs s -> nth_error (thr s) t = Some l ->
+  tstep t c (gl s) l = Some (g', l', es) -> In (E K_NOTIFY_ALL O_CV 0) es ->
+  mtx (gl s) = Some t /\ mtx g' = Some t.
+Proof. exact notify_under_mutex. Qed.
+
 (* Existence form of termination.  From every reachable state of a well-formed program some
    schedule of at most mu(s) work-choices, without any spurious wake-up, reaches a state in which
    nothing can move (whose shape is barrier_deadlock_shape) ... *)
